@@ -247,7 +247,7 @@ func RunScenario(sc *Scenario) RaceResult {
 	// settle: a full timeout of idleness (and more) for every session
 	time.Sleep(dur(sc.Tmo, 3000, 0))
 	if !virtual {
-		for i := 0; i < 300; i++ {
+		for i := 0; i < 1000; i++ {
 			R.wrap.mu.Lock()
 			n := len(R.wrap.ends)
 			R.wrap.mu.Unlock()
